@@ -178,6 +178,9 @@ pub fn install_panic_hook() {
         };
         let (file, line) = info.location().map(|l| (l.file().to_string(), l.line())).unwrap_or(("?".into(), 0));
         let func = enclosing_fn(&file, line);
+        if std::env::var_os("CFBMON_TRACE").is_some() {
+            eprintln!("  PANIC at {file}:{line} in {func}: {message}");
+        }
         LAST_PANIC.with(|p| *p.borrow_mut() = Some(PanicInfo { message, file, line, func }));
     }));
 }
